@@ -378,6 +378,15 @@ def pipeline_grid(tier, seed, n_random_quick=24, n_random_thorough=200, per_row_
                 cases.append(pipeline_case(iso, o, "random%d" % i))
         for i in range(n_random_thorough // 8):
             cases.append(pipeline_case("WOR", random_options(rnd, "global"), "randomG%d" % i))
+    # rounds that charge feed and biofuel while resilient foods are produced, in both intake modes: where the share caps of the
+    # resilient foods in feed / biofuel / human diets bind (a four-way conjunction no pairwise row is obliged to contain)
+    surplus = [i for i in ("URY", "SWE", "CAN", "NZL", "CHL", "JPN", "USA", "BRA", "ARG", "AUS", "FIN", "NOR") if i in isos]
+    sc = ["cellulosic_sugar", "industrial_foods", "all_resilient_foods", "methane_scp", "seaweed", "all_resilient_foods_and_more_area"]
+    nch = 8 if tier == "quick" else 144
+    for i in range(nch):
+        o = base_country(scenario=sc[(i + seed) % 6], shutoff=["continued", "continued_after_10_percent_fed", "long_delayed_shutoff"][(i // 6 + seed) % 3],
+                         intake_constraints=["disabled_for_humans", "enabled"][(i + i // 6) % 2], NMONTHS=[120, 72][(i // 3) % 2])
+        cases.append(pipeline_case(surplus[(i + seed * 5) % len(surplus)], o, "charged_resilient%d" % i))
     for n, c in enumerate(cases):
         c["id"] = "%s/%s#%d" % (c["iso"], c["tag"], n)
     return cases
